@@ -72,9 +72,9 @@ def classes(case):
 
 
 @st.composite
-def _cases(draw, deep=False):
+def _cases(draw, deep=False, large=False):
     spec = draw(models.model_specs(open_patterns=True))
-    j = draw(trees.wf_trees(spec, max_nodes=14 if deep else 8, deep=deep))
+    j = draw(trees.wf_trees(spec, max_nodes=40 if large else (14 if deep else 8), deep=deep, wide=14 if large else 3))
     opts = [pick(draw, OPTS), pick(draw, OPTS)]
     meta = draw(trees.metadata()) if draw(st.integers(0, 3)) == 0 else {}
     return {'tree': j, 'model': spec, 'opts': opts, 'meta': meta}
@@ -105,4 +105,5 @@ def stages(tier):
              'concept in {absent,x,"/"} (<=3) or {absent,x} (4); x {default, noop}; ill-formed ones are skipped and counted'),
         Hyp('random', _cases, 4000, 200000),
         Hyp('random-deep', lambda: _cases(deep=True), 600, 30000),
+        Hyp('random-large', lambda: _cases(large=True), 300, 15000),
     ]
